@@ -5,5 +5,6 @@ cd "$(dirname "$0")"
 . ./env.sh
 ./gen_gomod.sh
 ( cd harness && go build -tags verif -o $VERIF_DIR/.cache/bin/vcheck ./cmd/vcheck )
+( cd harness && go build -tags verif -o $VERIF_DIR/.cache/bin/vrun ./cmd/vrun )
 if [ -f ./build_octosql.sh ]; then ./build_octosql.sh; fi
 echo "setup ok"
